@@ -209,6 +209,8 @@ type vfCCJob struct {
 }
 
 type vfCCExec struct {
+	// pristine: only add and rpc actions so far (no fault, no session ended)
+	pristine bool
 	sc       vfCCScenario
 	mm       *multiMuxManager
 	mcc      *grpcutil.MultiClientConn
@@ -270,7 +272,10 @@ func (e *vfCCExec) violate(sig, detail string) {
 func (e *vfCCExec) logf(f string, a ...any) { e.events = append(e.events, fmt.Sprintf(f, a...)) }
 
 func vfNewCCExec(sc vfCCScenario) *vfCCExec {
-	e := &vfCCExec{sc: sc, idToPeer: map[string]int{}, failOpen: map[string]int{}, degraded: map[string]bool{}, stalled: map[string]chan struct{}{}}
+	e := &vfCCExec{sc: sc, idToPeer: map[string]int{}, failOpen: map[string]int{}, degraded: map[string]bool{}, stalled: map[string]chan struct{}{}, pristine: true}
+	// the goroutine that swaps the client connection's dial map is late by a millisecond: what it started before asking
+	// for the lock runs first
+	vrt.LazyLock = func(site string) bool { return strings.HasPrefix(site, "multi_client_conn.go:") }
 	lifetime, cancel := context.WithCancel(context.Background())
 	e.cancel = cancel
 	logger := log.NewNoopLogger()
@@ -330,7 +335,7 @@ func (e *vfCCExec) add() {
 	e.logf("session to %s offered", p.name)
 	p.mute = &vfMuteConn{Conn: a, closed: make(chan struct{})}
 	e.offers() <- vfOffer{conn: p.mute}
-	synctest.Wait()
+	vfCCWait()
 	for _, id := range e.liveIDs() {
 		found := false
 		for _, b := range before {
@@ -366,7 +371,7 @@ func (e *vfCCExec) settle() {
 	}
 	for i := 0; i < 120 && e.fn.lastFailed && !e.fn.waiting; i++ {
 		time.Sleep(time.Second)
-		synctest.Wait()
+		vfCCWait()
 	}
 }
 
@@ -422,12 +427,24 @@ func (e *vfCCExec) consistency(when string) {
 	}
 }
 
+// vfCCWait: quiescence, including goroutines that are merely late for a lock (verifrt.LazyLock)
+func vfCCWait() {
+	for {
+		synctest.Wait()
+		if !vrt.LazyPending() {
+			return
+		}
+		time.Sleep(time.Millisecond)
+	}
+}
+
 func (e *vfCCExec) rpc() {
 	e.rpcs++
 	live := e.livePeerNames()
 	client := adminservice.NewAdminServiceClient(e.mcc)
 	var lastErr error
 	served := ""
+	var firstErr error
 	for attempt := 0; attempt < 3 && served == ""; attempt++ {
 		ctx, cancel := context.WithTimeout(context.Background(), 2*time.Second)
 		resp, err := client.DescribeCluster(ctx, &adminservice.DescribeClusterRequest{})
@@ -436,9 +453,12 @@ func (e *vfCCExec) rpc() {
 			served = resp.ClusterName
 			break
 		}
+		if attempt == 0 {
+			firstErr = err
+		}
 		lastErr = err
 		time.Sleep(2 * time.Second)
-		synctest.Wait()
+		vfCCWait()
 	}
 	e.logf("rpc: served by %q err=%v (live peers %v)", served, lastErr, live)
 	usable := 0
@@ -453,6 +473,11 @@ func (e *vfCCExec) rpc() {
 			e.violate("rpc/served-over-unregistered-session", fmt.Sprintf("call answered by %s, live registered sessions are %v", served, live))
 		}
 	} else if len(live) > 0 {
+		if firstErr != nil && e.pristine {
+			// nothing has gone wrong on this path (no fault, no session ended): the update that registered the sessions has
+			// been applied, so every endpoint is dialable and the very first call is served
+			e.violate("rpc/first-call-refused-although-nothing-ever-failed", fmt.Sprintf("live sessions to %v, no fault and no session end on this path, yet the first call failed: %v", live, firstErr))
+		}
 		if served == "" {
 			e.violate("rpc/fails-although-a-session-is-live", fmt.Sprintf("live sessions to %v, but 3 calls (2 s deadline each, 2 s apart) all failed: %v", live, lastErr))
 		} else if !live[served] {
@@ -506,6 +531,9 @@ func (e *vfCCExec) enabled() []string {
 
 func (e *vfCCExec) apply(a string) error {
 	f := strings.SplitN(a, ":", 2)
+	if f[0] != "add" && f[0] != "rpc" {
+		e.pristine = false
+	}
 	switch f[0] {
 	case "add":
 		if !e.waiting() {
@@ -648,7 +676,7 @@ func vfRunCC(t *testing.T, job *vfCCJob) (out vfPoolOut) {
 		synctest.Test(t, func(t *testing.T) {
 			vrt.ResetLocks()
 			e := vfNewCCExec(job.Sc)
-			synctest.Wait()
+			vfCCWait()
 			e.consistency("initially")
 			// every step runs under a watchdog in virtual time: a step that has not completed after 3 hours (the longest action, idle, takes 31 minutes) is stuck
 			// (the rewritten locks park, so a goroutine waiting for a lock nobody releases does not stop the clock)
@@ -683,7 +711,7 @@ func vfRunCC(t *testing.T, job *vfCCJob) (out vfPoolOut) {
 						out.Err = err.Error()
 						return
 					}
-					synctest.Wait()
+					vfCCWait()
 					e.settle()
 					e.consistency("after " + a)
 				})
@@ -699,7 +727,7 @@ func vfRunCC(t *testing.T, job *vfCCJob) (out vfPoolOut) {
 					e.rpc()
 					if len(e.livePeerNames()) == 0 && e.waiting() {
 						e.add()
-						synctest.Wait()
+						vfCCWait()
 						e.consistency("after a new session appeared")
 						e.rpc()
 					}
@@ -713,9 +741,9 @@ func vfRunCC(t *testing.T, job *vfCCJob) (out vfPoolOut) {
 				_ = p.conn.Close()
 			}
 			time.Sleep(2 * time.Minute)
-			synctest.Wait()
+			vfCCWait()
 			vrt.AbandonBlockedLockers()
-			synctest.Wait()
+			vfCCWait()
 			vrt.SetFakeNet(nil)
 			out.Viol = e.viol
 			out.Outcome = fmt.Sprintf("peers=%d rpcs=%d", len(e.peers), e.rpcs)
